@@ -57,24 +57,22 @@ impl FitToType for i64 {
 
 impl FitToType for f32 {
     fn fit_to_type(self) -> Variant {
-        let diff = self - self.round();
-        let has_fraction = diff.abs() > 0.0001;
-        if has_fraction {
+        // only whole numbers within the range of a long become whole number variants
+        if self.fract() != 0.0 || !(MIN_LONG as f32..=MAX_LONG as f32).contains(&self) {
             Variant::VSingle(self)
         } else {
-            (self.round() as i64).fit_to_type()
+            (self as i64).fit_to_type()
         }
     }
 }
 
 impl FitToType for f64 {
     fn fit_to_type(self) -> Variant {
-        let diff = self - self.round();
-        let has_fraction = diff.abs() > 0.0001;
-        if has_fraction {
+        // only whole numbers within the range of a long become whole number variants
+        if self.fract() != 0.0 || !(MIN_LONG as f64..=MAX_LONG as f64).contains(&self) {
             Variant::VDouble(self)
         } else {
-            (self.round() as i64).fit_to_type()
+            (self as i64).fit_to_type()
         }
     }
 }
